@@ -84,9 +84,20 @@ def r1(ctx, R):
         if skip:
             # the private flag combines own visibility and the container's default
             srcs = set()
+            anodes = []
             for fa in skip:
-                srcs |= slice_attrs(ctx, g, ast.parse(fa[1], mode="eval").body, ctx.m.enclosing_stmt(r))
-            if {"vis", "def_vis"} <= srcs:
+                srcs |= slice_attrs(ctx, g, ast.parse(fa[1], mode="eval").body, ctx.m.enclosing_stmt(r), nodes=anodes)
+            # whose default: the container being searched (the object whose children are iterated),
+            # not the child's own `parent` (INCLUDE grafting re-parents shared children)
+            loops = [lp for lp in ctx.m.walk_own(g.node) if isinstance(lp, ast.For) and isinstance(lp.target, ast.Name) and lp.target.id == r.value.id]
+            cont = {(access_path(lp.iter.func.value if isinstance(lp.iter, ast.Call) and isinstance(lp.iter.func, ast.Attribute) else lp.iter) or "?").split(".")[0] for lp in loops}
+            dv_bases = {access_path(x.value) or "?" for x in anodes if x.attr == "def_vis"}
+            via_child = sorted(b for b in dv_bases if b.split(".")[0] == r.value.id)
+            if {"vis", "def_vis"} <= srcs and via_child:
+                R.violation("C05.R1", g.short, key(g, r), loc(g, r), f"the default accessibility is read from `{via_child[0]}.def_vis` (the child's own parent) instead of the scope being searched (`{sorted(cont)[0] if cont else '?'}`): declarations shared between scopes by INCLUDE carry the parent that was resolved last, so a module's PRIVATE default is applied to, or missing from, another module's look-up")
+            elif {"vis", "def_vis"} <= srcs and dv_bases and not all(b.split(".")[0] in cont for b in dv_bases):
+                R.undecided("C05.R1", g.short, key(g, r), loc(g, r), f"default accessibility read from {sorted(dv_bases)}; searched container {sorted(cont)}")
+            elif {"vis", "def_vis"} <= srcs:
                 R.ok("C05.R1", g.short, key(g, r), loc(g, r), "match dominated by the skip `filter_public and is_private` (own vis + container default)")
             else:
                 R.violation("C05.R1", g.short, key(g, r), loc(g, r), f"privacy is decided from {sorted(srcs)} only: " + ("a module-wide PRIVATE default is ignored" if "def_vis" not in srcs else "an entity's own PRIVATE attribute is ignored"))
